@@ -1,5 +1,6 @@
 /* C06 - decompression of arbitrary bytes is safe, terminates and never falsely succeeds. */
 #include "mutants.h"
+#include "faultstreams.h"
 #define nfail se_nfail
 #include "stream_explore.h"
 #undef nfail
@@ -62,88 +63,25 @@ static void fault(const char *name, struct bw *w, int cls)
 	v_count("grammar_faults", 1);
 }
 
-/* ---- stale decode tables: block 1 declares COMPLETE codes; block 2 declares the same codes minus ONE symbol (incomplete) and
- * then uses the codeword that became undefined (all ones of the maximal length). A decoder that rebuilds its lookup tables in
- * place and leaves entries of the previous block behind decodes the undefined codeword as the removed symbol - chosen so that
- * this would be perfectly decodable (a literal, or a distance of 1 or 2). Enumerated over alphabet sizes, both code shapes and
- * the removed symbol, in the lit/len and in the distance alphabet. ---- */
+/* ---- stale decode tables (streams from faultstreams.h), as two-block streams and as the second block alone ---- */
 static void stale_table_faults(void)
 {
-	static const int nds[] = { 2, 3, 5, 12, 16, 24, 30 }, nls[] = { 2, 3, 9, 40, 150, 256 };
 	uint8_t buf[4000];
-	char name[200];
+	char name[260];
 	uint64_t id = 7000;
-	for (int which = 0; which < 2; which++) /* 0: hole in the distance code, 1: hole in the lit/len code */
+	for (int which = 0; which < 2; which++)
 		for (int shape = 0; shape < 2; shape++)
 			for (int ni = 0; ni < (which ? 6 : 7); ni++)
-				for (int rem = 0; rem < 3; rem++) {
-					if (!v_mine(id++))
-						continue;
-					int used_l[300], nl = 0, used_d[32], nd = 0;
-					/* lit/len alphabet: literals, EOB, length symbol 257 (len 3); the LAST entries get the longest codes */
-					int nlit = which ? nls[ni] : 3;
-					used_l[nl++] = 256;
-					used_l[nl++] = 257;
-					for (int i = nlit - 1; i >= 0; i--)
-						used_l[nl++] = i == 0 ? 'a' : (('a' + i * 7) & 0xff) == 'a' ? 1 : (('a' + i * 7) & 0xff);
-					/* make the literal set duplicate-free */
-					{
-						uint8_t seen[256] = { 0 };
-						int k = 2;
-						for (int i = 2; i < nl; i++)
-							if (!seen[used_l[i]]) { seen[used_l[i]] = 1; used_l[k++] = used_l[i]; }
-						nl = k;
+				for (int rem = 0; rem < 3; rem++)
+					for (int only2 = 0; only2 < 2; only2++) {
+						if (!v_mine(id++))
+							continue;
+						size_t n = fs_build(which, shape, ni, rem, only2, buf, sizeof buf, name, sizeof name);
+						if (!n)
+							continue;
+						candidate(name, ISAL_DEFLATE, buf, n, RC_SYMBOL, id, 0);
+						v_count("stale_table_faults", 1);
 					}
-					/* distance alphabet: high symbols first, so that distances 2 and 1 (symbols 1, 0) get the longest codes */
-					int ndist = which ? 2 : nds[ni];
-					for (int i = ndist - 1; i >= 0; i--)
-						used_d[nd++] = i;
-					uint8_t L[288] = { 0 }, D[32] = { 0 }, L2[288], D2[32];
-					if (shape) { shape_chain(used_l, nl, 15, L); shape_chain(used_d, nd, 15, D); }
-					else { shape_balanced(used_l, nl, L); shape_balanced(used_d, nd, D); }
-					if (nd == 1) continue;
-					memcpy(L2, L, sizeof L); memcpy(D2, D, sizeof D);
-					/* remove one of the symbols with the LONGEST code (rem-th from the end of the used list) */
-					int victim, maxlen = 0;
-					if (which) {
-						if (rem >= nl - 2) continue;
-						victim = used_l[nl - 1 - rem];
-						L2[victim] = 0;
-						for (int i = 0; i < 288; i++) if (L2[i] > maxlen) maxlen = L2[i];
-					} else {
-						if (rem >= nd) continue;
-						victim = used_d[nd - 1 - rem];
-						D2[victim] = 0;
-						for (int i = 0; i < 32; i++) if (D2[i] > maxlen) maxlen = D2[i];
-					}
-					struct bw w;
-					bw_init(&w, buf, sizeof buf);
-					/* block 1: every literal once, then a match through every distance symbol whose distance is available */
-					struct tok t[16];
-					int nt = 0;
-					t[nt++] = (struct tok){ 0, 'a', 0 };
-					t[nt++] = (struct tok){ 0, (uint8_t)used_l[nl - 1], 0 };
-					t[nt++] = (struct tok){ 0, 'a', 0 };
-					t[nt++] = (struct tok){ 3, 0, 1 };
-					t[nt++] = (struct tok){ 3, 0, 2 };
-					gen_dynamic(&w, 0, L, 286, D, 30, shape, t, nt);
-					/* block 2 (final): same declaration minus the victim; a literal, then the undefined codeword */
-					uint16_t l2c[288], d2c[32];
-					gen_canon(L2, 288, l2c); gen_canon(D2, 32, d2c);
-					gen_dyn_header(&w, 1, L2, 286, D2, 30, shape, 0);
-					bw_code(&w, l2c['a'], L2['a']);
-					if (which) {
-						for (int i = 0; i < maxlen; i++) bw_bit(&w, 1); /* undefined lit/len codeword */
-					} else {
-						bw_code(&w, l2c[257], L2[257]);                 /* length 3 ... */
-						for (int i = 0; i < maxlen; i++) bw_bit(&w, 1); /* ... at an undefined distance codeword */
-					}
-					bw_code(&w, l2c[256], L2[256]);
-					snprintf(name, sizeof name, "fault{stale tables: block 2 drops %s symbol %d (code length %d) from block 1's %s %s code of %d symbols and uses the undefined all-ones codeword}", which ? "lit/len" : "distance", victim,
-						 which ? L[victim] : D[victim], shape ? "depth-15" : "balanced", which ? "lit/len" : "distance", which ? nl : nd);
-					candidate(name, ISAL_DEFLATE, w.buf, bw_bytes(&w), RC_SYMBOL, id, 0);
-					v_count("stale_table_faults", 1);
-				}
 }
 static void grammar_faults(void)
 {
